@@ -18,7 +18,10 @@ def run(args):
     rep.assumptions = ["shared fragment only: no spawn, no trigger, no -> / ~> member access",
                        "floats outside the dyadic model are compared between the backends only"]
     progs = c01.programs(thorough, C.seed() + 1000, rnd)
-    results, cases, rendered = sem.run_programs(progs, rep, backends=("vm", "tree"))
+    pool = C.Pool(C.build_worker())
+    results, cases, rendered = sem.run_programs(progs, rep, backends=("vm", "tree"), pool=pool)
+    from . import int64
+    int64.run_family(rep, pool, backends=("vm", "tree"))
     # cross comparison, independent of the oracle
     by = {}
     for p, b, v, r in results:
